@@ -923,6 +923,8 @@ class sptensor:
             assert False, "Sptensors must be same shape for innerproduct"
         if isinstance(other, ttb.tensor) and self.shape != other.shape:
             assert False, "Sptensor and tensor must be same shape for innerproduct"
+        if isinstance(other, (ttb.ktensor, ttb.ttensor)) and self.shape != other.shape:
+            assert False, "Sptensor and other tensor must be same shape for innerproduct"
 
         if self.nnz == 0:
             return 0
